@@ -871,6 +871,21 @@ mod real {
                     a.end()?;
                     m.set(d, c)
                 }
+                "determine_array_size" => {
+                    let (d, l, es, hdr) = (a.reg()?, a.reg()?, a.num::<i32>()?, a.next()?);
+                    a.end()?;
+                    let hdr = match hdr {
+                        "true" => true,
+                        "false" => false,
+                        t => return unsup(format!("{}:bool:{}", name, t)),
+                    };
+                    m.determine_array_size(d, l, es, hdr)
+                }
+                "compute_remembered_bit" => {
+                    let (d, sz) = (a.reg()?, a.reg()?);
+                    a.end()?;
+                    m.compute_remembered_bit(d, sz)
+                }
                 "cmp_ordering" => m3!(cmp_ordering),
                 "extend_int_long" => {
                     let (d, s) = (a.reg()?, a.reg()?);
